@@ -17,10 +17,10 @@ pub mod util;
 pub const VERIF_ROOT: &str = "/verif";
 
 /// Debugging aid (never used by the registered commands): `VERIF_SIDE=<name>` redirects everything a
-/// run writes (evidence, violations, end-to-end lanes) to `/verif/.work/side-<name>/`, so that a run
+/// run writes (evidence, violations, end-to-end lanes) to `/verif/.work-side-<name>/` (same depth as `.work`: generated manifests use relative paths), so that a run
 /// against another compiler binary (`PX_PAVEXC_BIN`) can go on next to the normal checks.
 pub fn side_dir() -> Option<std::path::PathBuf> {
-    std::env::var("VERIF_SIDE").ok().filter(|s| !s.is_empty()).map(|s| Path::new(VERIF_ROOT).join(".work").join(format!("side-{s}")))
+    std::env::var("VERIF_SIDE").ok().filter(|s| !s.is_empty()).map(|s| Path::new(VERIF_ROOT).join(format!(".work-side-{s}")))
 }
 
 fn evidence_dir() -> std::path::PathBuf {
